@@ -335,14 +335,42 @@ func scenC20OneOnOne(k *K) {
 		chans[i] = ch
 	}
 	k.F = FaultCfg{Deliver: 5, Refresh: 4, Tick: 2, Reorder: 1}
+	// several stores of one instance see the same peer join at once: 1-3 Connect calls for the
+	// same peer start together on each side (and one more may come once the pair is up)
+	var extra []*Op
 	c0 := k.Go(0, "connect 0->1", func() (interface{}, error) { return nil, chans[0].Connect(ctx, nodes[1].ID) })
+	for j, m := 0, k.C.Intn(3); j < m; j++ {
+		extra = append(extra, k.Go(0, "connect 0->1 (again)", func() (interface{}, error) { return nil, chans[0].Connect(ctx, nodes[1].ID) }))
+	}
 	k.Steps(k.C.Intn(6))
 	c1 := k.Go(1, "connect 1->0", func() (interface{}, error) { return nil, chans[1].Connect(ctx, nodes[0].ID) })
-	for j := 0; j < 400 && !(k.IsDone(c0) && k.IsDone(c1)); j++ {
+	for j, m := 0, k.C.Intn(3); j < m; j++ {
+		extra = append(extra, k.Go(1, "connect 1->0 (again)", func() (interface{}, error) { return nil, chans[1].Connect(ctx, nodes[0].ID) }))
+	}
+	allConnected := func() bool {
+		for _, o := range append([]*Op{c0, c1}, extra...) {
+			if !k.IsDone(o) {
+				return false
+			}
+		}
+		return true
+	}
+	for j := 0; j < 400 && !allConnected(); j++ {
 		k.Step()
 	}
-	if !k.IsDone(c0) || !k.IsDone(c1) || c0.Err != nil || c1.Err != nil {
+	if !allConnected() || c0.Err != nil || c1.Err != nil {
 		k.Failf("C20/oneonone/connect", "Connect did not complete on both sides: %v %v pending=%v", c0.Err, c1.Err, k.PendingDesc())
+	}
+	for _, o := range extra {
+		if o.Err != nil {
+			k.Failf("C20/oneonone/connect", "a concurrent Connect for the same peer failed: %v", o.Err)
+		}
+	}
+	if k.C.Chance(1, 3) {
+		side := k.C.Intn(2)
+		if op := k.Do(side, "connect (once more)", 50, func() (interface{}, error) { return nil, chans[side].Connect(ctx, nodes[1-side].ID) }); !op.Done || op.Err != nil {
+			k.Failf("C20/oneonone/connect", "Connect on an established pair failed: done=%v err=%v", op.Done, op.Err)
+		}
 	}
 	// one and the same topic on both ends
 	k.W.mu.Lock()
